@@ -105,6 +105,17 @@ class SymSeries:
         dt = "float" if isinstance(op, ast.Div) else self.col.dtype
         return self._mk(val, self._nulls(sn, on), dt)
 
+    def hv_ite(self, c, other, swapped):
+        ov, on = self._other(other)
+        sv, sn = self.col.val, self.col.null
+        if swapped:
+            val = lambda r: z_ite(c, ov(r), sv(r))
+            null = (lambda r: z_ite(c, on(r) if on else False, sn(r) if sn else False)) if (on or sn) else None
+        else:
+            val = lambda r: z_ite(c, sv(r), ov(r))
+            null = (lambda r: z_ite(c, sn(r) if sn else False, on(r) if on else False)) if (on or sn) else None
+        return self._mk(val, null, self.col.dtype)
+
     def hv_unary(self, ex, op):
         if isinstance(op, ast.Invert):
             return self._mk(lambda r: z_not(pyvc.truth(self.col.val(r))), None, "bool")
@@ -340,7 +351,9 @@ class Loc:
                 return sub.project(cols)
             raise Unsupported("loc column selector")
         if isinstance(idx, SymSeries):
-            return df.select(idx)
+            if idx.col.dtype == "bool":
+                return df.select(idx)
+            return df.select_labels(ex, idx)
         raise Unsupported("loc row selector")
 
     def hv_setitem(self, ex, idx, v, pc):
@@ -352,6 +365,9 @@ class Loc:
                 return
             if isinstance(rows, SymSeries) and rows.col.dtype == "bool":
                 df.assign_col(col, v, rows)
+                return
+            if isinstance(rows, SymSeries) and isinstance(v, SymSeries) and v.uni is rows.uni:
+                df.scatter(ex, col, rows, v)
                 return
         raise Unsupported("loc assignment pattern")
 
@@ -400,6 +416,27 @@ class SymDF:
         out = SymDF(self.uni, self.cols, lambda r: z_and(pres(r), pyvc.truth(mv(r))), self.label, self.name + "_sel", self.order)
         return out
 
+    def select_labels(self, ex, labels: SymSeries) -> "SymDF":
+        """df.loc[label_series]: the rows whose label occurs in the series (KeyError obligation for labels not in the frame).
+        Order and multiplicity follow the label series; for a duplicate-free series taken in frame order (the only use in
+        the anchored code) that is the frame's own order."""
+        _assume("pandas df.loc[label_series]: the rows carrying those labels, in the order of the series (KeyError if a label is missing)")
+        if self.label is None:
+            raise Unsupported("label selection on a frame with unknown labels")
+        lab, pres = self.label, self.present
+        lp, lv, ln = labels.present, labels.col.val, labels.col.null
+        k = next(_uid)
+        w = labels.uni.skolem(f"lw{k}")
+
+        def present(r):
+            return z_and(pres(r), z3.Exists(list(w), to_z3(z_and(lp(w), to_z3(lv(w)) == to_z3(lab(r))))))
+
+        m2 = labels.uni.skolem(f"lk{k}")
+        r2 = self.uni.skolem(f"lkr{k}")
+        ex.oblige(f"loc_labels_keyerror_{k}", [to_z3(lp(m2))], z3.Exists(list(r2), z3.And(to_z3(pres(r2)), to_z3(lab(r2)) == to_z3(lv(m2)))),
+                  "every selected label exists in the frame (KeyError absence)")
+        return SymDF(self.uni, self.cols, present, self.label, self.name + "_loclab", self.order)
+
     def project(self, cols: List[str]) -> "SymDF":
         for c in cols:
             if c not in self.cols:
@@ -444,6 +481,47 @@ class SymDF:
             self.cols[col] = Col(val, null, dt if old is None else old.dtype)
         if col not in self.written:
             self.written.append(col)
+
+    def scatter(self, ex, col: str, labels: SymSeries, values: SymSeries) -> None:
+        """df.loc[labels, col] = values  (positional pairing of a label series and a value array of one source table).
+
+        Assumed contract: for every source row m, the row(s) of df whose label equals labels(m) receive values(m); when
+        several source rows name the same label one of them wins (modelled as an arbitrary one); a label that is not in
+        the frame raises KeyError (obligation).  Requires the frame's labels to be known (self.label)."""
+        _assume("pandas df.loc[label_series, col] = array: positional pairing; each named label receives its value (an arbitrary one of several "
+                "for duplicate labels); KeyError for a label not in the index")
+        if self.label is None:
+            raise Unsupported("label scatter into a frame with unknown labels")
+        src = labels.uni
+        k = next(_uid)
+        wit = [z3.Function(f"scat{k}_w{i}", *([z3.IntSort()] * self.uni.arity), z3.IntSort()) for i in range(src.arity)]
+        lab, lp, lv, vv = self.label, labels.present, labels.col.val, values.col.val
+        old = self.cols.get(col)
+        if old is None:
+            raise Unsupported("scatter into a new column")
+
+        def w(r):
+            return tuple(f(*r) for f in wit)
+
+        # choice axiom: if some source row names label(r), then w(r) is such a row
+        r = self.uni.skolem(f"sr{k}")
+        m = src.skolem(f"sm{k}")
+        ex.facts.append(z3.ForAll(list(r) + list(m), z3.Implies(z3.And(to_z3(lp(m)), to_z3(lv(m)) == to_z3(lab(r))),
+                                                               z3.And(to_z3(lp(w(r))), to_z3(lv(w(r))) == to_z3(lab(r))))))
+        # KeyError absence: every label named exists in the frame
+        m2 = src.skolem(f"sk{k}")
+        r2 = self.uni.skolem(f"skr{k}")
+        ex.oblige(f"scatter_keyerror_{col}_{k}", [to_z3(lp(m2))], z3.Exists(list(r2), z3.And(to_z3(self.present(r2)), to_z3(lab(r2)) == to_z3(lv(m2)))),
+                  "every scattered label exists in the frame (KeyError absence)")
+        ov, on = old.val, old.null
+
+        def hit(rr):
+            return z_and(lp(w(rr)), to_z3(lv(w(rr))) == to_z3(lab(rr)))
+
+        self.cols[col] = Col(lambda rr: z_ite(hit(rr), vv(w(rr)), ov(rr)), (lambda rr: z_and(z_not(hit(rr)), on(rr))) if on else None, old.dtype)
+        if col not in self.written:
+            self.written.append(col)
+        self.last_scatter_witness = w
 
     # -- python protocol hooks used by PyVC
     def hv_getitem(self, ex, idx, pc):
